@@ -1064,7 +1064,7 @@ reg('C13', cliprops.run_C13, ['Prop_C13.v'], "texts: every prefix (quick: a rand
 
 reg('C10', frontprops.run_C10, ['Prop_C10.v'], 'abstract specifications (curated families + seeded random grammars with every printable character literal, names that start with directive words, actions with nested braces / comments / strings, explicit token numbers, re-declarations, tokens declared only through precedence lines or only used in rules, optional %start, missing epilogue, prologue and union containing grammar-like text) x 6 (quick) / 24 (thorough) renderings each: single spaces, one token per line, no optional space at all, random blanks/tabs/newlines with // and /* */ comments (incl. runs of stars) between every pair of tokens, with and without ; terminators, alternatives grouped with |. Compared: what the implementation read back (rules in order with symbols, %prec and action text; start symbol; tags; fixed codes; precedence levels; prologue/union/epilogue bytes) with the specification that was rendered, and all renderings of one specification with each other; the Coq visitor model runs on the implementation\'s AST. non-trivial = renderings that contain comments',
     technique="Coq theorems (lexer model: tokens of every rendering of a token document; parser model: a token list that spells out a specification is read back into exactly that specification; both together: text -> AST for every layout; visitor: rules handed on as written) + specification/rendering round trip through the real front end + Coq lexer, parser and visitor models against the implementation's tokens, AST and grammar object on every rendering",
-    level_text="Proved in Coq for the lexer and parser models that are compared with Lex.go / Parser.go on every run: for every well-formed token document (identifiers, numbers, punctuation, %% marks, character literals, brace-balanced actions, directives; separated by any blanks, // comments and /* */ comments incl. star runs) lex (render d) = the tokens of d (C10_lexer_roundtrip); a token list that spells out a specification - %token/%left/%right/%nonassoc/%precedence/%type/%start/%union/%{ %} lines in any order with optional tags and numbers, rule groups with any number of alternatives, symbols, character literals, %prec annotations anywhere in an alternative, action bodies, each group closed by `;` or not - is parsed into spec_ast: the declaration lines in order, one rule per alternative in order with exactly its symbols, actions and %prec symbol, the literals first used in rules, the epilogue text (C10_parser_roundtrip: only kinds and values of tokens matter, the three-slot look-back buffer of Parser.go is modelled as it is); together: parse_text (render d) = the AST of the specification for every layout, and two layouts of the same tokens give the same result (C10_text_roundtrip, C10_layout_irrelevant, with a concrete grammar in two layouts as C10_text_roundtrip_example); the visitor keeps rules, symbols, %prec and actions in order as written (C10_rules_as_written). The tie to the Go code and to the property's specification-level reading is checked on every run by rendering random specifications under random layouts: the real front end's read-back is compared with the specification, renderings with each other, and lexer, parser and visitor models with the implementation's tokens, AST and identifier table.",
+    level_text="Proved in Coq for the lexer and parser models that are compared with Lex.go / Parser.go on every run: for every well-formed token document (identifiers, numbers, punctuation, %% marks, character literals, brace-balanced actions, directives, %union bodies and %{ %} prologues carried byte for byte; separated by any blanks, // comments and /* */ comments incl. star runs) lex (render d) = the tokens of d (C10_lexer_roundtrip); a token list that spells out a specification - %token/%left/%right/%nonassoc/%precedence/%type/%start/%union/%{ %} lines in any order with optional tags and numbers, rule groups with any number of alternatives, symbols, character literals, %prec annotations anywhere in an alternative, action bodies, each group closed by `;` or not - is parsed into spec_ast: the declaration lines in order, one rule per alternative in order with exactly its symbols, actions and %prec symbol, the literals first used in rules, the epilogue text (C10_parser_roundtrip: only kinds and values of tokens matter, the three-slot look-back buffer of Parser.go is modelled as it is); together: parse_text (render d) = the AST of the specification for every layout, and two layouts of the same tokens give the same result (C10_text_roundtrip, C10_layout_irrelevant, with a concrete grammar in two layouts as C10_text_roundtrip_example); the visitor keeps rules, symbols, %prec and actions in order as written (C10_rules_as_written). The tie to the Go code and to the property's specification-level reading is checked on every run by rendering random specifications under random layouts: the real front end's read-back is compared with the specification, renderings with each other, and lexer, parser and visitor models with the implementation's tokens, AST and identifier table.",
     level_note=MODEL_NOTE + ' Dialect restrictions are explicit in the generator and in the theorems (DESIGN 5.C10): brace-balanced action/union bodies, a literal never directly after a bare identifier in a %token line (it would be its alias: titems_ok), %type with a tag and at least one name, %union followed by blanks then { then white space; token aliases and the string-literal token kind are outside the specification language of the theorems (they are in the executable model and in the comparison).')
 reg('C11', frontprops.run_C11, ['Prop_C11.v'], 'declaration mixes: seeded random grammars with 3-9 terminals declared in every way (tagged/untagged %token lines, several per line, explicit numbers: small, > 255, negative, inside the range the automatic numbering walks through, re-declared in a second %token line, character literals declared / only in precedence lines / only in rules, aliases), distinct explicit numbers. Checked on the implementation: the verified checker Front.valid_codes (extracted) on the AST declarations and the final identifier table; emitted `const NAME = n` lines and the translate switch of both generated files (Go, TypeScript) against the grammar\'s terminals. non-trivial = mixes with both automatically numbered and explicitly numbered named tokens',
     technique="Coq-verified checker (valid_codes_sound) + theorem that the visitor model's numbering always passes it + model of the translate switch with its specification + checker run on the implementation's identifier table + emitted constants/translate parsed from both generated targets + Coq visitor model on the implementation AST",
